@@ -81,7 +81,7 @@ static std::string path_desc(const IdxPath& p) {
 static vf::Counter c_hist("histories"), c_ops("operations-checked"), c_map_create("op:CreateMap"), c_map_destroy("op:DestroyMap"), c_remove_tail_with_map("op:RemoveMember(tail)-while-map-exists"),
     c_remove_with_map("op:RemoveMember-while-map-exists"), c_erase_full("op:erase-full-or-empty-range"), c_grow0("op:growth-from-capacity-0"), c_move_sub("op:move-assign-from-own-subnode"),
     c_swap_sub("op:Swap-with-own-subnode"), c_copyfrom("op:CopyFrom"), c_dupkeys("histories-with-duplicate-keys(no-map)"), c_lookup("lookups-checked"), c_reserve_below("op:reserve-below-size"),
-    c_clear_reuse("op:Clear-then-reuse"), c_atptr("AtPointer-checked");
+    c_clear_reuse("op:Clear-then-reuse"), c_atptr("AtPointer-checked"), c_parsed_init("histories-starting-from-a-parsed-document");
 
 static JVal small_value(vf::Rng& r, int depth = 0) {
   switch (r.below(depth >= 2 ? 6 : 9)) {
@@ -602,8 +602,31 @@ static void c12_history(vf::Rng& r, const char* cfg) {
   }
   JVal init = r.coin() ? JVal::obj() : JVal::arr();
   if (r.below(3) == 0) init = small_value(r, 0);
-  h.build(h.doc, init);
-  h.model = init;
+  if (r.below(3) == 0) {
+    // start from a parsed document: strings borrowed from the document's text buffer, containers allocated with
+    // capacity == size (growth from an exactly full container, capacity 1 for one-element arrays)
+    jm::GenOpts go;
+    go.max_depth = 3;
+    go.dup_keys = dup;
+    JVal v = jm::gen_document(r, go);
+    jm::RenderOpts ro;
+    std::string text = jm::render(v, r, ro);
+    jm::RefResult ref = jm::ref_parse(text);
+    if (ref.ok && (dup || !jm::has_dup_keys(ref.v))) {
+      h.doc.Parse(text.data(), text.size());
+      if (!h.doc.HasParseError()) {
+        c_parsed_init.add();
+        h.log("init=Parse(" + std::to_string(text.size()) + " bytes)");
+        h.model = ref.v;
+        init.k = JVal::Null;
+        init.s = "parsed";
+      }
+    }
+  }
+  if (init.s != "parsed") {
+    h.build(h.doc, init);
+    h.model = init;
+  }
   size_t steps = r.range(20, vf::args().thorough ? 400 : 120);
   for (size_t s = 0; s < steps; s++) {
     std::string name = h.step(&side);
